@@ -897,6 +897,15 @@ def check_image_case(acc: core.Acc, case: dict) -> None:
                 acc.fail('choreo_image_rewrite_diff', case, f'{label}\nsave(parse(file)) != file (entries left unparsed)\n'
                          f'first : {w1.hex()}\nsecond: {w2.hex()}', path='raw', unsorted_input=unsorted_input, **sig)
                 status = 'rewrite_diff'
+            if len(want) >= 2:
+                # the mapping form with keys that no longer match (or sort like) the entries' checksums, as after renaming entries
+                back3 = ch.parse_scenes_image(io.BytesIO(w1))
+                stale = {n + 1: e for n, (_, e) in enumerate(sorted(back3.items(), reverse=True))}
+                w4 = save(stale)
+                if w4 != w1:
+                    acc.fail('choreo_image_rewrite_diff', case, f'{label}\nsaving the same entries as a mapping whose keys are not their checksums gives a different file\n'
+                             f'first : {w1.hex()[:400]}\nmapping: {w4.hex()[:400]}', path='stale_keys', unsorted_input=unsorted_input, **sig)
+                    status = 'rewrite_diff'
             back2 = ch.parse_scenes_image(io.BytesIO(w1))
             for entry in back2.values():
                 _ = entry.data
